@@ -459,6 +459,14 @@ func genCfg(r *term.Rng, ncat int, i int, quiet bool) term.T {
 			if k == "LProp" && n > 1 {
 				n = 1
 			}
+			if (k == "LRemove" || k == "LDispel") && r.Chance(1, 3) {
+				// a removal listener that attaches several modifiers to the unit whose list is being cut:
+				// the batch being announced must not be disturbed by them
+				for j := r.Range(2, 3); j > 0; j-- {
+					acts = append(acts, term.C("AAdd", term.C("TOwner"), genTsel(r), genDesc(r, ncat)))
+				}
+				n = 0
+			}
 			for ; n > 0; n-- {
 				if (k == "LExtCnt" || k == "LExtDur" || k == "LPhase1" || k == "LPhase2") && r.Chance(1, 2) {
 					// listeners that change the owner's list while the manager iterates over it
